@@ -22,7 +22,7 @@ EXPLANATION = ('Static byte-level analysis of gr_tag_to_str / gr_str_to_tag on t
                'every byte (zero- vs sign-extension) and its shift amount; plus the tag-normalisation '
                'taint rule on every tag-taking API entry.  Decides the contract for all strings and all '
                'tags because both functions are loop-free and every path is enumerated.')
-FLOORS = {'TAGWRITE': 5, 'TAGREAD': 5, 'TAGNORM': 3}
+FLOORS = {'TAGWRITE': 5, 'TAGREAD': 1, 'TAGNORM': 3}     # TAGREAD: the bounded execution is always there; the byte-level instances depend on the form
 
 
 def _acyclic_paths(fn, start, limit=4096):
@@ -621,6 +621,56 @@ def tagread_loop(run, fx):
             run.held('TAGREAD', inst, fn.where(), 'all bytes zero-extended')
 
 
+def tagread_exec(run, fx):
+    """TAGREAD by bounded execution (rules/ordint.py), whatever the form of the function (switch, loop, ladder of early returns):
+    gr_str_to_tag is interpreted on strings of every length 0..6 held in EXACT-SIZE buffers (length + 1 cells: a read of any cell
+    behind the terminator is a read outside the vector and stops the run), over byte patterns that make every position distinguishable
+    and include values >= 0x80 (plain char is signed here, so they arrive as negative numbers).  The result is the big-endian tag of
+    the first min(4, length) characters, zero-padded."""
+    from . import ordint as O
+    fn = fx.one('gr_str_to_tag')
+    pats = ([0x41, 0x42, 0x43, 0x44, 0x45, 0x46], [0x80, 0xFF, 0x81, 0xFE, 0x90, 0xA0], [0x7F, 0x80, 0x01, 0xFF, 0x20, 0x61], [0xFF, 0x01, 0xFF, 0x01, 0xFF, 0x01])
+
+    def strlen(I, f, e, obj, a):
+        p_ = I.rv(a[0])
+        n_ = 0
+        while True:
+            c_ = I.deref_it(O.It(p_.vec, p_.idx + n_, p_.gen), f, e).load()
+            if c_ == 0:
+                return n_
+            n_ += 1
+    nat = {'strlen': strlen, 'strnlen': lambda I, f, e, obj, a: min(strlen(I, f, e, obj, a[:1]), I.rv(a[1]))}
+    cases = 0
+    inst = 'every string of length 0..6 in an exact-size buffer (interpreted)'
+    try:
+        for L in range(0, 7):
+            for pat in pats:
+                bs = pat[:L]
+                buf = O.Vec([b - 256 if b >= 128 else b for b in bs] + [0])
+                it = O.Interp(fx, natives=nat)
+                it.MAX_STEPS = 5000
+                cases += 1
+                desc = 'the %d-character string %s' % (L, ' '.join('%02X' % b for b in bs) or '""')
+                try:
+                    r = it.call(fn, None, [O.It(buf, 0)])
+                except O.Violation as v:
+                    run.violated('TAGREAD', inst, fn.where(), '%s in a buffer of %d bytes: %s (%s) -- a byte behind the terminating NUL is read' % (desc, L + 1, v.what, v.loc))
+                    return
+                if not isinstance(r, int):
+                    raise AnalysisBroken('gr_str_to_tag returns a %s' % type(r).__name__)
+                r &= 0xFFFFFFFF
+                want = 0
+                for j, b in enumerate(bs[:4]):
+                    want |= b << (24 - 8 * j)
+                if r != want:
+                    run.violated('TAGREAD', inst, fn.where(), '%s gives the tag %08X, expected %08X (the first min(4, length) characters, most significant first, zero-padded)' % (desc, r, want))
+                    return
+    except AnalysisBroken as ex:
+        run.broken('TAGREAD', inst, str(ex), fn.where())
+        return
+    run.held('TAGREAD', inst, fn.where(), '%d strings' % cases)
+
+
 def apiattr(run):
     """the public declarations are part of the contract: a function that reads memory through a pointer argument must not be declared
     `__attribute__((const))` (result depends on the argument VALUES only) -- an optimising client may then merge or hoist two calls
@@ -663,8 +713,13 @@ def run(run):
         tagwrite_loop(run, fx)
     else:
         tagwrite(run, fx)
-    if _has_loop(fx.one('gr_str_to_tag')):
-        tagread_loop(run, fx)
-    else:
-        tagread(run, fx)
+    try:
+        if _has_loop(fx.one('gr_str_to_tag')):
+            tagread_loop(run, fx)
+        else:
+            tagread(run, fx)
+    except AnalysisBroken as ex:
+        # the byte-level rules know the switch form and the loop form; any other form is decided by the execution below alone
+        run.observe('TAGREAD: the structural rule does not apply to this form of gr_str_to_tag (%s); decided by bounded execution' % ex)
+    tagread_exec(run, fx)
     tagnorm.check(run, fx, 'TAGNORM')
